@@ -297,6 +297,54 @@ theorem server_block2_genuine (x : LgXmit) (room num szx : Nat) :
   rw [e, slice_length]
   exact Nat.min_le_left _ _
 
+
+/-- The FIRST block message of a body handed to `coap_add_data_large_request` (Block1), for ALL sizes: whenever the
+result is a multi-block transfer, the PDU carries Block1 (NUM 0, M 1, SZX = the lg_xmit's block size) — also after the
+second size reduction "chunk size change down" — and its payload is exactly slice 0 of the body at that size, which
+is a full block, and the More bit is the one RFC 7959 prescribes.  With `client_block1_slices` /
+`client_block1_genuine_partial` every block message of a libcoap Block1 sender is covered.  (The arithmetic is the
+lemma `adlBody_first`, which is stated for the response path's parameters as well.) -/
+theorem first_block_genuine (maxSize tokLen optBytes lastOpt : Nat) (blk : Option Nat) (maxBlk rtagLen : Nat)
+    (body : Bytes) (r : AdlRes) (hms : maxSize < 2 ^ 62) (hlen : body.length < 2 ^ 32)
+    (h : addDataLarge maxSize tokLen optBytes lastOpt blk maxBlk body.length rtagLen = some r) (hlg : r.lgXmit = true) :
+    r.blockVal = some (blockValue 0 (more body.length r.blkSize 0) r.blkSize) ∧
+    body.take r.payload = slice body r.blkSize 0 ∧ 0 < nBlocks body.length r.blkSize ∧ r.payload = chunkSize r.blkSize := by
+  unfold addDataLarge at h
+  dsimp only at h
+  have key : r.blockVal = some (blockValue 0 1 r.blkSize) ∧ r.payload = 2 ^ (r.blkSize + 4) ∧
+      2 ^ (r.blkSize + 4) < body.length := by
+    cases blk with
+    | none =>
+      simp only at h
+      obtain ⟨a, b, c, _⟩ := adlBody_first _ _ _ _ _ _ _ _ _ r hms hlen (by omega)
+        (by intro h16
+            exact adl_b2_le _ _ (by split <;> omega) h16 (by rw [adlAvail_eq]; omega)) h hlg
+      exact ⟨a, b, c⟩
+    | some s =>
+      simp only at h
+      have ho := blkOpt_le_43 (27 - lastOpt) (blockValue 0 0 s)
+      obtain ⟨a, b, c, _⟩ := adlBody_first _ _ _ _ _ _ _ _ _ r hms hlen (by omega)
+        (by intro h16
+            exact adl_b2_le _ _ (by split <;> split <;> omega) h16 (by rw [adlAvail_eq]; omega)) h hlg
+      exact ⟨a, b, c⟩
+  obtain ⟨a, b, c⟩ := key
+  have hc := chunk_pos r.blkSize
+  have hcs : 2 ^ (r.blkSize + 4) = chunkSize r.blkSize := rfl
+  rw [hcs] at b c
+  have hnb : 1 < nBlocks body.length r.blkSize := (lt_nBlocks_iff _ _ 1).mpr (by omega)
+  have hmore : more body.length r.blkSize 0 = 1 := by
+    unfold more; rw [if_pos (by omega)]
+  refine ⟨by rw [hmore]; exact a, ?_, by omega, b⟩
+  rw [b]
+  unfold slice
+  simp
+
+/-- non-vacuity: 5000 bytes into a 1152-byte PDU → 1024-byte blocks; into a 200-byte PDU → 128-byte blocks -/
+example : (addDataLarge 1152 4 2 11 none 0 5000 1).map (fun r => (r.lgXmit, r.blkSize, r.payload, r.blockVal)) =
+    some (true, 6, 1024, some (blockValue 0 1 6)) ∧
+    (addDataLarge 200 4 2 11 none 0 5000 1).map (fun r => (r.lgXmit, r.blkSize, r.payload, r.blockVal)) =
+    some (true, 3, 128, some (blockValue 0 1 3)) := by decide
+
 /-- Client, Block1: for EVERY lg_xmit and EVERY response matched to it (2.31 in order, duplicated, stale, renegotiating
 the size, or any other code): a block message the client builds carries exactly the body's slice for the NUM and SZX
 in its Block1 option, that SZX is the one of the response, and marker + payload fit the room the PDU has. -/
